@@ -644,6 +644,9 @@ package gorums
 //@   ghost nreg Int = 0
 //@   ghost answered Int = 0
 //@   ghost queued Int = 0
+//@   ghost sawClosed Bool = false
+//@   ghost drainedQ Bool = false
+//@   ghost checkedAfter Bool = false
 //@   on mapupdate "channel.responseRouters"
 //@     assert[C05.a] key == req.msg.Metadata.MessageID && val.c == responseChan && val.streaming == streaming
 //@     assert[C18.a] responseChan != nil && nreg == 0 && queued == 0
@@ -658,14 +661,46 @@ package gorums
 //@     assert[C03.a] v == req && queued == 0 && answered == 0
 //@     assert[C05.a] responseChan != nil ==> nreg == 1
 //@     set queued = queued + 1
+//@   on call "c.parentCtx.Err"
+//@     assert[C12.d] queued == 1
+//@     after set sawClosed = res0 != nil
+//@     after set checkedAfter = true
+//@   on call "c.failQueued"
+//@     assert[C12.d] queued == 1 && sawClosed && nolocks()
+//@     after set drainedQ = true
 //@   ensures[C18.a] responseChan == nil ==> nreg == 0
 //@   ensures[C05.a] responseChan != nil ==> nreg == 1
 //@   ensures[C12.c] queued + answered == 1
+//@   ensures[C12.d] queued == 1 && sawClosed ==> drainedQ
+//@   ensures[C12.d] queued == 1 ==> checkedAfter
 //@   ensures[C09.a] responseChan != nil ==> ChCredit[responseChan] == old(ChCredit[responseChan]) - 1
 //@   ensures[C09.a] forall(ch, ch != responseChan ==> ChCredit[ch] == old(ChCredit[ch]))
 //@   blocks until req.ctx
 //@   opt effect-tags=C08.a,C12.c
 //@   opt also-until=c.parentCtx
+
+// C12.d (D6): requests accepted into a non-empty send buffer are answered when the node is closed:
+// the sender drains the queue before it ends, and an enqueue that finds the node closed after its
+// request was accepted drains as well (the sender may be gone). Every drained request is answered
+// with an error naming this node; routeResponse drops the answer if the request was answered before.
+//@ func (*channel).failQueued
+//@   props C12 C07 C18
+//@   mode concurrent
+//@   requires c != nil && c.node != nil
+//@   ghost pend Bool = false
+//@   ghost cur request = zero("request")
+//@   loop "for {"
+//@     invariant[C12.d] !pend
+//@   on recv "c.sendQ" as r
+//@     assume r.msg != nil && r.msg.Metadata != nil
+//@     set pend = true
+//@     set cur = r
+//@   on call "c.routeResponse"
+//@     assert[C12.d] pend && arg0 == cur.msg.Metadata.MessageID && arg1.nid == c.node.id && arg1.err != nil && arg1.msg == nil && nolocks()
+//@     set pend = false
+//@   on return
+//@     assert[C12.d] !pend
+//@   blocks never
 
 //@ func (*channel).routeResponse
 //@   props C01 C05 C07 C09 C18
@@ -930,9 +965,11 @@ package gorums
 //@   ghost pending Bool = false
 //@   ghost tried Bool = false
 //@   ghost sawUp Bool = false
+//@   ghost drained Bool = false
 //@   ghost cur request = zero("request")
 //@   loop "for {"
 //@     invariant[C07.b] !pending
+//@     invariant[C12.d] !drained
 //@   on recv "c.sendQ" as r
 //@     assume r.msg != nil && r.msg.Metadata != nil && r.ctx != nil
 //@     set pending = true
@@ -941,6 +978,11 @@ package gorums
 //@     set cur = r
 //@   on call "c.isConnected"
 //@     after set sawUp = res0
+//@   on call "c.failQueued"
+//@     assert[C12.d] !pending && nolocks()
+//@     after set drained = true
+//@   on return
+//@     assert[C12.d] drained
 //@   on call "c.connect"
 //@     assert[C10.a] pending
 //@     after set tried = true
